@@ -693,7 +693,8 @@ def run(prog, rep, tier):
     rep.rule('AXES-parallel-sort', 'inner() re-orders axes_a by argsort(axes_b) when it normalises '
              'axes_b to range(rank)')
     if check_parallel_sort(prog, rep) < 1:
-        raise AnalysisError('AXES-parallel-sort: the joint re-ordering in inner() was not found')
+        rep.note('AXES-parallel-sort: inner() does not gather the axes of a through an index '
+                 'derived from the axes of b (another normalisation is used): nothing to decide')
     rep.rule('SPLICE-descending', 'one-for-many list splices at the loop variable run over '
              'descending positions')
     if check_splice_order(prog, rep) < 3:
@@ -891,10 +892,12 @@ def check_permute_compare(prog, rep):
 
 # ------------------------------------------------------------------ AXES-parallel-sort
 def check_parallel_sort(prog, rep):
-    """inner(a, b, axes=(axes_a, axes_b)) may permute both axis lists together; it brings axes_b to
-    range(rank) and must move axes_a by the SAME re-ordering, i.e. the one that sorts axes_b:
-    new_axes_a[k] = axes_a[j] with axes_b[j] == k, j = argsort(axes_b)[k].  Indexing axes_a with
-    axes_b itself applies the inverse map (equal only for involutions: any rank-2 case)."""
+    """inner(a, b, axes=(axes_a, axes_b)) may permute both axis lists together; it brings the axes
+    of b to range(rank) and must move the axes of a by the SAME re-ordering, i.e. the one that sorts
+    the axes of b: new_a[k] = axes_a[j] with axes_b[j] == k, j = argsort(axes_b)[k].  Indexing the
+    a-list with the b-list itself applies the inverse map (equal only for involutions: any rank-2
+    case).  The two lists are identified by data flow (`a.get_leg_indices` / `b.get_leg_indices`),
+    the re-ordering by the subscript `A[i]` with `i` bound by a loop or comprehension."""
     m = prog.module(NPC)
     n = 0
     for qn in ('inner', ):
@@ -904,35 +907,69 @@ def check_parallel_sort(prog, rep):
             if isinstance(st, ast.Assign) and len(st.targets) == 1 and isinstance(
                     st.targets[0], ast.Name):
                 defs.setdefault(st.targets[0].id, []).append(st.value)
-        for st in ast.walk(f):
-            if not (isinstance(st, ast.Assign) and len(st.targets) == 1 and
-                    unparse(st.targets[0]) == 'axes_a'):
+
+        def family(obj):
+            fam = {nm for nm, ds in defs.items() for d in ds if isinstance(d, ast.Call) and
+                   unparse(d.func) == obj + '.get_leg_indices'}
+            return fam
+        A, B = family('a'), family('b')
+        if not A or not B:
+            raise AnalysisError('AXES-parallel-sort: axis lists of inner() not found')
+
+        def is_sorter(e):
+            return any(isinstance(c, ast.Call) and (unparse(c.func).endswith('argsort') or
+                                                    unparse(c.func) == 'sorted') and
+                       B & {x for a_ in c.args for x in names_in(a_)} for c in ast.walk(e))
+
+        def b_derived(e, depth=0):
+            """-> 'sorted' | 'raw' | None"""
+            if is_sorter(e):
+                return 'sorted'
+            if B & set(names_in(e)):
+                return 'raw'
+            if depth < 3:
+                for nm in names_in(e):
+                    for d in defs.get(nm, []):
+                        r = b_derived(d, depth + 1)
+                        if r:
+                            return r
+            return None
+        parents = {}
+        for x in ast.walk(f):
+            for c in ast.iter_child_nodes(x):
+                parents[c] = x
+        for x in ast.walk(f):
+            if not (isinstance(x, ast.Subscript) and isinstance(x.value, ast.Name) and
+                    x.value.id in A and isinstance(x.slice, ast.Name) and
+                    isinstance(x.ctx, ast.Load)):
                 continue
-            v = st.value
-            reads = set(names_in(v))
-            if 'axes_a' not in reads:
+            iv = x.slice.id
+            it = None
+            p_ = parents.get(x)
+            while p_ is not None and it is None:
+                if isinstance(p_, (ast.ListComp, ast.GeneratorExp)):
+                    for g in p_.generators:
+                        if isinstance(g.target, ast.Name) and g.target.id == iv:
+                            it = g.iter
+                elif isinstance(p_, ast.For) and isinstance(p_.target, ast.Name) and \
+                        p_.target.id == iv:
+                    it = p_.iter
+                p_ = parents.get(p_)
+            if it is None:
                 continue
-            txt = unparse(v)
-            via = [nm for nm in reads - {'axes_a', 'axes_b'} if any(
-                'axes_b' in names_in(d) for d in defs.get(nm, []))]
-            if 'axes_b' not in reads and not via:
+            kind = b_derived(it)
+            if kind is None:
                 continue
-            for nm in via:
-                txt += ' | ' + ' | '.join(unparse(d) for d in defs[nm])
             n += 1
-            exprs = [v] + [d for nm in via for d in defs[nm]]
-            ok = any(isinstance(c, ast.Call) and (unparse(c.func).endswith('argsort') or
-                                                  unparse(c.func) == 'sorted') and
-                     'axes_b' in {x for a_ in c.args for x in names_in(a_)}
-                     for e_ in exprs for c in ast.walk(e_))
-            rep.instance('AXES-parallel-sort', {'function': qn, 'statement': key_text(st)[:80],
-                                                'ok': ok})
-            if not ok:
+            rep.instance('AXES-parallel-sort', {'function': qn, 'gather': unparse(x),
+                                                'index_source': unparse(it)[:60], 'kind': kind})
+            if kind == 'raw':
                 rep.violation('AXES-parallel-sort', m, qn, 'forward-permutation',
-                              '`%s` re-orders axes_a with axes_b itself; the re-ordering that '
-                              'brings axes_b to range(rank) is argsort(axes_b): the contracted '
-                              'axis pairs are mismatched unless the permutation is an involution'
-                              % key_text(st)[:80], st.lineno)
+                              '`%s` for `%s` in `%s` re-orders the axes of a with the axes of b '
+                              'themselves; the re-ordering that brings the axes of b to '
+                              'range(rank) is their argsort: the contracted axis pairs are '
+                              'mismatched unless the permutation is an involution'
+                              % (unparse(x), iv, unparse(it)[:60]), x.lineno)
     return n
 
 
